@@ -256,22 +256,30 @@ application code called from inside `datagram_received` with no containment (`Si
 `async_update_records_complete` (handlers as a parameter, `Model/SurviveHandlers.completeE`) is exactly C04's `Browser.complete`
 that the composite runs. -/
 theorem C15_handlers_return_is_the_model {h : Handlers.Handler} (hok : Handlers.HandlersOK h) (b : Browser) :
-    Handlers.completeE h b = .ok (Browser.complete b) :=
+    Handlers.completeE h b = ((Browser.complete b).1, .ok (Browser.complete b).2) :=
   Handlers.completeE_eq_complete hok b
 
-/-- **and when a handler raises the browser is wedged** (finding F-U2; not a theorem about the composite, about the code's
-`async_update_records_complete`): if the handlers raise for `Added(t, n)` while that event is pending, the call raises — out of
-`async_updates_complete`, `async_updates_from_response`, `datagram_received` — and, because `_pending_handlers.clear()` is skipped
-and nothing overwrites a pending `Added`, **every later call raises again**, whatever updates arrive in between. -/
-theorem C15_raising_handler_wedges_browser (lower : String → String) (possible : String → List String)
+/-- **before the D24b repair (aa04e95) a raising handler wedged its browser** (F-U2; a theorem about the old
+`async_update_records_complete`, `Handlers.completeBeforeD24b`): if the handlers raise for `Added(t, n)` while that event is pending,
+the call raised — out of `async_updates_complete`, `async_updates_from_response`, `datagram_received` — left `_pending_handlers` as it
+was and, since nothing overwrites a pending `Added`, **every later call raised again**, whatever updates arrived in between. -/
+theorem C15_raising_handler_wedged_browser_before_fix (lower : String → String) (possible : String → List String)
     {h : Handlers.Handler} {t n : String} (hraise : ∃ e, h ⟨.added, t, n⟩ = .error e) {b : Browser}
     (hp : Handlers.PendingAdded (n, t) b) :
-    (∃ e, Handlers.completeE h b = .error e) ∧
+    ((Handlers.completeBeforeD24b h b).1 = b ∧ ∃ e, (Handlers.completeBeforeD24b h b).2 = .error e) ∧
     ∀ rounds : List (Cache × Ms × List (Rec × Option Rec)),
-      ∃ e, Handlers.completeE h (rounds.foldl (fun b r => Browser.updateRecords lower possible r.1 r.2.1 b r.2.2) b) = .error e :=
-  Handlers.raising_handler_wedges lower possible hraise hp
+      ∃ e, (Handlers.completeBeforeD24b h (rounds.foldl (fun b r => Browser.updateRecords lower possible r.1 r.2.1 b r.2.2) b)).2 = .error e :=
+  Handlers.raising_handler_wedged_before_fix lower possible hraise hp
 
-/-- the hypothesis is satisfiable and the wedge is real: a handler that raises for one name only -/
+/-- **since the repair it raises once**: the dict is detached before the first handler runs, so the call that fires the event raises
+(user code: outside the property's quantifier) and the event is gone — the browser goes on receiving every later event
+(`corpus/C15/d24b-browser-handler-raises-once.json` replays it on the real code and reports a violation should the wedge return). -/
+theorem C15_raising_handler_raises_once {h : Handlers.Handler} {t n : String} (hraise : ∃ e, h ⟨.added, t, n⟩ = .error e) {b : Browser}
+    (hp : Handlers.PendingAdded (n, t) b) :
+    (∃ e, (Handlers.completeE h b).2 = .error e) ∧ ¬ Handlers.PendingAdded (n, t) (Handlers.completeE h b).1 :=
+  Handlers.raising_handler_raises_once hraise hp
+
+/-- the hypothesis is satisfiable and can fail: a handler that raises for one name only, with that event pending -/
 example : ∃ h : Handlers.Handler, ¬ Handlers.HandlersOK h ∧
     Handlers.PendingAdded ("evil._b._tcp.local.", "_b._tcp.local.")
       (({ types := ["_b._tcp.local."] } : Browser).enqueue .added "_b._tcp.local." "evil._b._tcp.local.") :=
